@@ -269,7 +269,8 @@ pub fn gen(id: &str, r: &mut Rng, out: &mut Vec<Case>) {
             match r.below(8) {
                 0 => { let x = operand(r); let fl = flags_in(r);
                        for op in ["quantum", "quantexp", "llquantexp"] { out.push(case(op, '-', if op == "quantum" { 0 } else { fl }, vec![d(x)])); } }
-                1 => { let (x, y) = cmp_pair(r); out.push(case("same_quantum", '-', 0, vec![d(x), d(y)])); }
+                1 => { let (x, y) = if r.chance(1, 2) { cmp_pair(r) } else { let x = if r.chance(1, 2) { operand(r) } else { noncanonical_finite(r) }; let y = sibling(r, x); if r.chance(1, 2) { (x, y) } else { (y, x) } };
+                       out.push(case("same_quantum", '-', 0, vec![d(x), d(y)])); }
                 2 => out.push(case("quantize", mode_tok(r), flags_in(r), vec![d(operand(r)), d(operand(r))])),
                 3 | 4 => { // near-tie tails at every number of dropped digits
                     let (c, k) = near_tie_coeff(r);
@@ -300,6 +301,8 @@ pub fn gen(id: &str, r: &mut Rng, out: &mut Vec<Case>) {
                     (enc(r.chance(1, 2), cx.min(P34 - 1), e), enc(r.chance(1, 2), cy, e))
                 }
                 2 => { let x = finite(r); (x, x) }
+                3 | 4 => rem_half_pair(r),
+                5 => scaled_word_pair(r),
                 _ => { let x = finite_or_zero(r); (x, partner(r, x)) }
             };
             let op = *r.pick(&["remainder", "remainder", "fmod", "fmod", "op_rem", "op_rem_ref", "op_rem_assign", "op_rem_assign_ref"]);
@@ -394,7 +397,7 @@ pub fn gen(id: &str, r: &mut Rng, out: &mut Vec<Case>) {
                 0 => for op in CLASSIFY.iter() { out.push(case(op, '-', 0, vec![d(x)])); },
                 _ => {
                     // a non-canonical pattern as an operand of any operation
-                    let y = operand(r);
+                    let y = if r.chance(1, 3) { sibling(r, x) } else { operand(r) };
                     let fl = flags_in(r);
                     let (a, b) = if r.chance(1, 2) { (x, y) } else { (y, x) };
                     match r.below(11) {
@@ -531,7 +534,7 @@ pub fn gen(id: &str, r: &mut Rng, out: &mut Vec<Case>) {
             }
         }
         "C20" => {
-            let (x, y) = match r.below(5) { 0 => (nan(r), nan(r)), 1 => (nan(r), operand(r)), 2 => (zero(r), zero(r)), _ => cmp_pair(r) };
+            let (x, y) = match r.below(6) { 0 => (nan(r), nan(r)), 1 => (nan(r), operand(r)), 2 => (zero(r), zero(r)), 3 => cohort_pair_wide(r), _ => cmp_pair(r) };
             for op in RUST_CMP.iter() { out.push(case(op, '-', 0, vec![d(x), d(y)])); }
             out.push(case("hash_pair", '-', 0, vec![d(x), d(y)]));
             if r.chance(1, 8) { out.push(case("hash_slice", '-', 0, vec![d(x), d(y), d(operand(r))])); }
